@@ -3,16 +3,15 @@ From CJ Require Import Common.Base C17.Model C17.Sites C17.Proofs.
 
 (* ---- the regenerated table ---- *)
 
-Lemma all_sites_safe_but_known : forallb (fun s => s_known s || safe_site s) sites = true.
+Lemma all_sites_safe : forallb safe_site sites = true.
 Proof. vm_compute. reflexivity. Qed.
 
 Lemma no_site_leaks s ev :
-  In s sites -> s_known s = false -> log_client_ip ev = false ->
+  In s sites -> log_client_ip ev = false ->
   has_addr (output default_level s ev) = false.
 Proof.
-  intros Hin Hk Hl. apply safe_site_no_address; [|exact Hl].
-  pose proof all_sites_safe_but_known as H. rewrite forallb_forall in H.
-  specialize (H _ Hin). rewrite Hk in H. exact H.
+  intros Hin Hl. apply safe_site_no_address; [|exact Hl].
+  pose proof all_sites_safe as H. rewrite forallb_forall in H. exact (H _ Hin).
 Qed.
 
 (* ---- the level order the model uses is the one in pkg/station/log ---- *)
